@@ -201,11 +201,13 @@ class TU:
         return None
 
     def vtype_q(self, q):
+        if re.search(r'\(\s*\*\s*\)\s*\(', q):
+            return T(PTR, False, True, None)           # `int (*)(…)`: a function pointer is an opaque 64-bit value
         q = self.resolve(q)
         if q.endswith('*'):
             pointee = q[:-1].strip()
             if '(' in pointee:
-                raise Unsupported('function pointer type ' + q)
+                return T(PTR, False, True, None)       # a function pointer: an opaque 64-bit value
             return T(PTR, False, True, self.sizeof(pointee))
         if q in INT_TYPES:
             return T(*INT_TYPES[q])
@@ -510,6 +512,15 @@ class Fn:
                 return conv(self.ev(inner, env), tu.vtype(inner), tu.vtype(n))
             if ck == 'NullToPointer':
                 return lit(0, PTR)
+            if ck == 'FunctionToPointerDecay':
+                fn_ = strip(inner)
+                nm_ = fn_.get('referencedDecl', {}).get('name') if fn_.get('kind') == 'DeclRefExpr' else None
+                if nm_ is None:
+                    raise Unsupported('function designator')
+                # a function used as a value (handed to list_insert_sorted): an identity, like the tags of array objects
+                v = 0x4000 + (sorted(self.tu.fns).index(nm_) if nm_ in self.tu.fns else 0xfff)
+                self.tags[f'tag_fn_{nm_}'] = v
+                return lit(v, PTR)
             if ck in ('IntegralToBoolean', 'PointerToBoolean'):
                 it = tu.vtype(inner)
                 return f'(if {self.ev(inner, env)} != {lit(0, it.w)} then {lit(1, tu.vtype(n).w)} else {lit(0, tu.vtype(n).w)})'
